@@ -190,6 +190,20 @@ def do_job(env, kind, ext, n, p, m):
     return out
 
 
+class NonTerminating(Exception):
+    pass
+
+
+def bounded(it, limit=40):
+    """the chunks of an iterload, at most `limit` of them (one known defect never stops)"""
+    out = []
+    for ch in it:
+        out.append(ch)
+        if len(out) > limit:
+            raise NonTerminating()
+    return out
+
+
 def atom_subset(rng, n_atoms=12):
     """atom_indices from the shapes a reader might special-case: a block, every k-th atom, a subset that only LOOKS regular (first gap and
     span of an arithmetic progression, uneven inside), one atom, all atoms, a random increasing subset"""
@@ -381,6 +395,37 @@ def run(ctx):
                     seen.setdefault("lh5|load", ("md.load(frame0.lh5, stride=%d, atom_indices=[0, 3, 4, 9]) differs from the slice of the full load" % s_, dict(stride=s_)))
     except Exception as e:  # noqa: BLE001
         ctx.broke("harness:lh5", "%s: %s" % (type(e).__name__, e))
+    # ---- atom counts that change the layout of the text formats (ten values to an .mdcrd line: 3N a multiple of ten or not; one or two
+    # atoms; more than nine atoms for .xtc): strided loads, single frames and chunked iteration against slices of the full load
+    for na_ in ([10, 7] if ctx.quick else [1, 2, 3, 7, 9, 10, 20, 30]):
+        for cell_ in (True, False):
+            exts_ = [e for e in ("mdcrd", "xyz", "lammpstrj", "xtc", "dcd", "nc", "h5") if not (e == "lammpstrj" and not cell_) and not (e == "mdcrd" and na_ == 1)]
+            tfull, top_, paths_ = tf.write_files(os.path.join(ctx.scratch, "na%d_%d" % (na_, cell_)), 9, exts_, n_atoms=na_, seed=5, cell=cell_)
+            for e in exts_:
+                kw = {} if e == "h5" else dict(top=top_)
+                full = md.load(paths_[e], **kw)
+                probes = [("load(stride=2)", lambda: md.load(paths_[e], stride=2, **kw), full[::2]),
+                          ("load(stride=3)", lambda: md.load(paths_[e], stride=3, **kw), full[::3]),
+                          ("load_frame(2)", lambda: md.load_frame(paths_[e], 2, **kw), full[2]),
+                          ("load_frame(8)", lambda: md.load_frame(paths_[e], 8, **kw), full[8]),
+                          ("iterload(chunk=2, stride=2, skip=3)", lambda: md.join(bounded(md.iterload(paths_[e], chunk=2, stride=2, skip=3, **kw))), full[3::2]),
+                          ("iterload(chunk=4, skip=2)", lambda: md.join(bounded(md.iterload(paths_[e], chunk=4, skip=2, **kw))), full[2:])]
+                for name_, fn_, want_ in probes:
+                    ctx.case(None, ("atom-counts", na_, cell_, e, name_)); ctx.count("partial loads at other atom counts")
+                    try:
+                        got_ = fn_()
+                        okk = got_.n_frames == want_.n_frames and np.array_equal(got_.xyz, want_.xyz) and np.array_equal(got_.time, want_.time) and \
+                            ((got_.unitcell_lengths is None) == (want_.unitcell_lengths is None)) and (want_.unitcell_lengths is None or np.array_equal(got_.unitcell_lengths, want_.unitcell_lengths))
+                        desc_ = "%d frames (ids %s), the slice of the full load has %d (ids %s)" % (got_.n_frames, tf.frame_ids(got_.xyz, 1.0), want_.n_frames, tf.frame_ids(want_.xyz, 1.0))
+                    except NonTerminating:
+                        # the recorded finding for .xtc (skip > 0 with stride > 1), under its own key
+                        seen.setdefault("%s|iterload|nonterminating|skip=>0|stride=>1|chunk=>0|" % e, ("md.%s on a .%s file of %d atoms does not terminate" % (name_, e, na_), dict(ext=e, n_atoms=na_, call=name_)))
+                        continue
+                    except Exception as ex:  # noqa: BLE001
+                        okk, desc_ = False, "raised %s: %s" % (type(ex).__name__, str(ex)[:100])
+                    if not okk:
+                        seen.setdefault("%s|atom-count|%s" % (e, name_.split("(")[0]), ("md.%s on a .%s file of %d atoms (%s cell): %s" % (name_, e, na_, "with" if cell_ else "without", desc_), dict(ext=e, n_atoms=na_, cell=cell_, call=name_)))
+                        break
     for key, (what, rp) in seen.items():
         ctx.violation(key, what, rp)
 
